@@ -5,7 +5,10 @@
 package arkx
 
 import (
+	"fmt"
 	"reflect"
+	"runtime"
+	"sync"
 
 	"github.com/mlange-42/ark/ecs"
 )
@@ -46,6 +49,132 @@ type CS struct {
 	ecs.RelationMarker
 	X int32
 	V int64
+}
+
+// Pointer-bearing components (C11): the payload V comes first, so that a pointer to it is a pointer to the
+// component; the other fields mirror V in heap objects of every pointer-like kind.
+type heapObj struct {
+	val    int64
+	serial int64
+}
+
+type CP struct {
+	V int64
+	H *heapObj
+	S []int64
+	M map[string]int64
+	N string
+}
+
+type CQ struct {
+	ecs.RelationMarker
+	V int64
+	H *heapObj
+	S []int64
+	N string
+}
+
+func (c *CP) P() *int64 { return &c.V }
+func (c *CQ) P() *int64 { return &c.V }
+
+// richT is implemented by pointer-bearing components.
+type richT interface {
+	compT
+	Sync()         // rebuild the heap mirrors for the current payload (fresh objects)
+	Decode() int64 // the payload if all mirrors agree with it, a negative marker otherwise
+	Serial() int64 // serial number of the referenced heap object (0: none)
+}
+
+const (
+	markCorrupt = -777 // mirrors disagree with the payload: pointee data changed or lost
+	markDirty   = -778 // zero payload but pointers left behind
+)
+
+func (c *CP) Sync() {
+	c.H = newHeapObj(c.V)
+	c.S = []int64{c.V, c.V + 1}
+	c.M = map[string]int64{"v": c.V}
+	c.N = fmt.Sprint(c.V)
+}
+func (c *CP) Decode() int64 {
+	if c.V == 0 && c.H == nil && c.S == nil && c.M == nil && c.N == "" {
+		return 0
+	}
+	if c.H == nil || c.S == nil || c.M == nil {
+		if c.V == 0 {
+			return markDirty
+		}
+		return markCorrupt
+	}
+	if c.H.val != c.V || len(c.S) != 2 || c.S[0] != c.V || c.S[1] != c.V+1 || c.M["v"] != c.V || c.N != fmt.Sprint(c.V) {
+		if c.V == 0 {
+			return markDirty
+		}
+		return markCorrupt
+	}
+	return c.V
+}
+func (c *CP) Serial() int64 {
+	if c.H == nil {
+		return 0
+	}
+	return c.H.serial
+}
+func (c *CQ) Sync() {
+	c.H = newHeapObj(c.V)
+	c.S = []int64{c.V, c.V + 1}
+	c.N = fmt.Sprint(c.V)
+}
+func (c *CQ) Decode() int64 {
+	if c.V == 0 && c.H == nil && c.S == nil && c.N == "" {
+		return 0
+	}
+	if c.H == nil || c.S == nil || c.H.val != c.V || len(c.S) != 2 || c.S[0] != c.V || c.S[1] != c.V+1 || c.N != fmt.Sprint(c.V) {
+		if c.V == 0 {
+			return markDirty
+		}
+		return markCorrupt
+	}
+	return c.V
+}
+func (c *CQ) Serial() int64 {
+	if c.H == nil {
+		return 0
+	}
+	return c.H.serial
+}
+
+// tracker of heap objects referenced by pointer-bearing components (finalizers observe collection)
+var heapMu sync.Mutex
+var heapSerial int64
+var heapAlloc = map[int64]bool{}
+var heapFinal = map[int64]bool{}
+
+func newHeapObj(v int64) *heapObj {
+	heapMu.Lock()
+	heapSerial++
+	h := &heapObj{val: v, serial: heapSerial}
+	heapAlloc[h.serial] = true
+	heapMu.Unlock()
+	runtime.SetFinalizer(h, func(o *heapObj) {
+		heapMu.Lock()
+		heapFinal[o.serial] = true
+		heapMu.Unlock()
+	})
+	return h
+}
+
+func resetHeapTracker() {
+	heapMu.Lock()
+	heapAlloc = map[int64]bool{}
+	heapFinal = map[int64]bool{}
+	heapMu.Unlock()
+}
+
+func syncRich(c compT) {
+	if r, ok := c.(richT); ok {
+		r.Sync()
+	}
 }
 
 func (c *CA) P() *int64 { return &c.V }
@@ -93,7 +222,7 @@ type compInfo struct {
 
 var compTypes = map[string]reflect.Type{
 	"A": reflect.TypeFor[CA](), "B": reflect.TypeFor[CB](), "C": reflect.TypeFor[CC](),
-	"R": reflect.TypeFor[CR](), "S": reflect.TypeFor[CS](),
+	"R": reflect.TypeFor[CR](), "S": reflect.TypeFor[CS](), "P": reflect.TypeFor[CP](), "Q": reflect.TypeFor[CQ](),
 	"F1": reflect.TypeFor[CF1](), "F2": reflect.TypeFor[CF2](), "F3": reflect.TypeFor[CF3](),
 	"F4": reflect.TypeFor[CF4](), "F5": reflect.TypeFor[CF5](), "F6": reflect.TypeFor[CF6](),
 	"F7": reflect.TypeFor[CF7](), "F8": reflect.TypeFor[CF8](), "F9": reflect.TypeFor[CF9](),
@@ -101,7 +230,7 @@ var compTypes = map[string]reflect.Type{
 }
 
 var compComps = map[string]ecs.Comp{
-	"A": ecs.C[CA](), "B": ecs.C[CB](), "C": ecs.C[CC](), "R": ecs.C[CR](), "S": ecs.C[CS](),
+	"A": ecs.C[CA](), "B": ecs.C[CB](), "C": ecs.C[CC](), "R": ecs.C[CR](), "S": ecs.C[CS](), "P": ecs.C[CP](), "Q": ecs.C[CQ](),
 	"F1": ecs.C[CF1](), "F2": ecs.C[CF2](), "F3": ecs.C[CF3](), "F4": ecs.C[CF4](), "F5": ecs.C[CF5](),
 	"F6": ecs.C[CF6](), "F7": ecs.C[CF7](), "F8": ecs.C[CF8](), "F9": ecs.C[CF9](), "F10": ecs.C[CF10](),
 	"F11": ecs.C[CF11](), "F12": ecs.C[CF12](),
